@@ -11,7 +11,7 @@
 (* independent, so the rest of the trace is still checked): the verdict is *)
 (* printed and counted, and the logged effect becomes the next state.      *)
 (***************************************************************************)
-EXTENDS Bid, Convert, Json, IOUtils
+EXTENDS Bid, Encl, Json, IOUtils
 
 Events == ndJsonDeserialize(IOEnv.VERIF_TRACE)
 
@@ -282,6 +282,40 @@ FloatVerdict(e) ==
               ELSE IF IsZero(r) THEN B2S(CmpVC(MulSmall(br[1], 1000), br[2], 0, FromInt(1001), Emin - 1) < 0)
               ELSE B2S(RelErrLe(r.c, r.q, br[1], br[2], 0, <<2>>, Pow10(33)) \/ WithinMinQuantum(r, br[1], br[2]))
 
+\* numeric oracle (enclosures): see Encl.tla
+NumericVerdict(op, x, r) == EnclVerdict(op, x, r)
+
+
+\* C15 / C16 / C17: unary elementary functions
+NanResultOK(exp, e) ==      \* exp is a NaN descriptor value
+  LET r == Decode(e.r) IN
+  /\ r.k = "nan"
+  /\ (exp.src = "x" => e.r = e.x)
+  /\ (exp.src = "y" => e.r = e.y)
+  /\ (exp.src = "new" => e.pl = exp.pl)
+UnaryVerdict(e) ==
+  LET x == Decode(e.x)
+      sp == UnarySpecial(e.op, x)
+      r == Decode(e.r)
+  IN IF sp.t = "val" THEN
+        (IF sp.v.k = "nan" THEN B2S(NanResultOK(sp.v, e)) ELSE B2S(ResEq(sp.v, r)))
+     ELSE IF r.k = "nan" THEN "reject:nan-from-finite"
+     ELSE IF e.op = "Sqrt" THEN B2S(~r.neg /\ RootOK(x, r, 2))
+     ELSE IF e.op = "Cbrt" THEN B2S(r.neg = x.neg /\ RootOK(x, r, 3))
+     ELSE NumericVerdict(e.op, x, r)
+
+\* C18
+PowVerdict(e) ==
+  LET x == Decode(e.x)  y == Decode(e.y)  m == EffMode(e)
+      ld == PowLadder(x, y, m)
+      r == Decode(e.r)
+  IN IF ld.t = "val" /\ ld.v.k = "nan" THEN B2S(NanResultOK(ld.v, e))
+     ELSE IF ld.t \in {"val", "rnd"} THEN Agrees(ld, r, m)
+     ELSE IF r.k = "nan" THEN "reject:nan-from-finite"
+     ELSE IF r.k = "fin" /\ ~IsZero(r) /\ r.neg # ld.neg THEN "reject:sign"
+     ELSE IF ~Has(e, "w") THEN "undecided:no-witness"
+     ELSE EnclPowVerdictW(x, y, r, m, [neg |-> e.w.neg, l |-> e.w.l, e |-> e.w.e], ld.neg)
+
 \* documented panics only: anything else that panicked is rejected before its own verdict is consulted
 PanicAllowed(e) ==
   \/ e.op \in {"Sign", "Payload", "Int", "Rat", "Float", "ToInt"}
@@ -302,6 +336,8 @@ RawVerdict(e) ==
          [] e.op = "UnmarshalJSON" -> JsonUnmarshalVerdict(e)
          [] e.op = "UnmarshalDoc" -> JsonDocVerdict(e)
          [] e.op = "Compose" -> ComposeVerdict(e)
+         [] e.op \in {"Exp", "Exp2", "Exp10", "Expm1", "Log", "Log2", "Log10", "Log1p", "Sqrt", "Cbrt"} -> UnaryVerdict(e)
+         [] e.op = "Pow" -> PowVerdict(e)
          [] e.op \in {"FromInt64", "FromInt", "Int", "ToInt", "Rat", "FromRat"} -> IntVerdict(e)
          [] e.op \in {"FromFloat64", "FromFloat32", "Float64", "Float32", "Float", "FromFloat"} -> FloatVerdict(e)
          [] e.op = "Decompose" -> DecomposeVerdict(e)
@@ -310,7 +346,22 @@ RawVerdict(e) ==
          [] e.op \in {"Neg", "Abs", "Min", "Max", "Equal", "Compare", "IsZero", "IsNaN", "IsInf", "Signbit", "Sign"} -> MiscVerdict(e)
          [] OTHER -> "specfault:unknown-op"
 
-Verdict(e) == RawVerdict(e)
+(***************************************************************************)
+(* Deviations: genuine defects of the library that are recorded but not    *)
+(* repaired (known_findings.json).  Each names the input region AND the    *)
+(* exact wrong symptom; a step that is rejected and matches one is         *)
+(* reported as kf:<id>, any other wrong result in the same region is still *)
+(* a rejection.                                                            *)
+(***************************************************************************)
+\* KF1: Expm1(-0) returns +0 (C16 / C15 ask for -0); pinned by the repository's testdata/TestExpm1/simple.txt
+KF_Expm1NegZero(e) ==
+  e.op = "Expm1" /\ Has(e, "x") /\ Has(e, "r") /\
+  LET x == Decode(e.x)  r == Decode(e.r) IN IsZero(x) /\ x.neg /\ IsZero(r) /\ ~r.neg
+KnownFinding(e) == IF KF_Expm1NegZero(e) THEN "KF1" ELSE ""
+
+Verdict(e) == LET v == RawVerdict(e) IN
+              IF v \in OkSet THEN v
+              ELSE LET k == KnownFinding(e) IN IF k = "" THEN v ELSE "kf:" \o k
 
 Init == l = 1 /\ mode = 0 /\ bad = 0
 Next == /\ l <= Len(Events)
